@@ -25,6 +25,10 @@ pub trait World {
     ) -> Result<Vec<PathBuf>, ::glob::PatternError>;
     /// Simulated local calendar date.
     fn today(&self) -> ::chrono::NaiveDate;
+    /// Working directory of the simulated process (`None`: the real one).
+    fn current_dir(&self) -> Option<PathBuf> {
+        None
+    }
 }
 
 thread_local! {
@@ -112,6 +116,18 @@ pub mod std {
         pub use ::std::collections::*;
 
         pub use super::super::map::{HashMap, HashSet};
+    }
+
+    pub mod env {
+        pub use ::std::env::*;
+
+        /// Working directory of the simulated process when a world is installed.
+        pub fn current_dir() -> ::std::io::Result<::std::path::PathBuf> {
+            match super::super::world().and_then(|w| w.current_dir()) {
+                Some(dir) => Ok(dir),
+                None => ::std::env::current_dir(),
+            }
+        }
     }
 
     pub mod fs {
